@@ -487,6 +487,10 @@ class P_cif(StructureParser):
         )
         # get a list of setters for atom_site values
         prop_setters = P_cif._get_atom_setters(atom_site_loop)
+        # the displacement type decides how the U and B values of its row are
+        # stored, so it is applied before them wherever its column stands
+        first = (P_cif._tr_atom_site_adp_type,)
+        setter_order = sorted(range(len(prop_setters)), key=lambda i: prop_setters[i] not in first)
         # index of the _atom_site_label item for the labelindex dictionary
         ilb = atom_site_loop.keys().index("_atom_site_label")
         # loop through the values and pass them to the setters
@@ -499,8 +503,8 @@ class P_cif(StructureParser):
             self.labelindex[curlabel] = len(self.stru)
             self.stru.addNewAtom()
             a = self.stru.getLastAtom()
-            for fset, val in zip(prop_setters, values):
-                fset(a, val)
+            for i in setter_order:
+                prop_setters[i](a, values[i])
             if does_adp_type:
                 self.anisotropy[curlabel] = a.anisotropy
         return
